@@ -5,6 +5,7 @@
 //! operations without any cache: the oracle is `cached result == uncached result`.
 //!
 //! Modes:  `c19 FILE`        one case per line (format below), one result line per case
+//!         `c19 SEEDS checkopts` check with every trust_cache x read_data combination over planted cache files
 //!         `c19 SEEDS trace`   the calls of real commands on the cached handle as an op-sequence case line
 //!         `c19 SEEDS readers` the generic readers on the Repository API (see `readers_case`)
 //!         `c19 SEEDS e2e`   one seed per line: identical backup/forget/prune/check histories
@@ -375,15 +376,15 @@ fn e2e_inner(line: &str) -> anyhow::Result<String> {
                 res
             }
             _ => {
-                let res = repo.check(CheckOptions::default().read_data(arg == 1))?;
-                format!("check read_data={} ok={}", arg, res.is_ok().is_ok())
+                let res = repo.check(CheckOptions::default().read_data(arg & 1 == 1).trust_cache(arg & 2 == 2))?;
+                format!("check read_data={} trust_cache={} ok={}", arg & 1, (arg >> 1) & 1, res.is_ok().is_ok())
             }
         })
     };
 
     for k in 0..nsteps {
         let op = if k == 0 { 0 } else { [0, 0, 1, 2, 3][r.below(5) as usize] };
-        let arg = match op { 1 => 1 + r.below(2), _ => r.below(2) };
+        let arg = match op { 1 => 1 + r.below(2), 3 => r.below(4), _ => r.below(2) };
         let use_cache = r.below(10) < 6;
         // change the source a little before a backup
         if op == 0 && k > 0 {
@@ -402,7 +403,16 @@ fn e2e_inner(line: &str) -> anyhow::Result<String> {
                             std::fs::write(p, &d[..(*sz as usize) / 2])?;
                             planted += 1;
                         }
-                        1 if !files.is_empty() && tpe != FileType::Pack => {
+                        1 if !files.is_empty() && tpe == FileType::Pack => {
+                            // a foreign, longer file under the id of a cached tree pack: only check's clean-up
+                            // evicts it, so it is planted right before a check step only
+                            if op == 3 {
+                                let (_, sz, p) = &files[r.below(files.len() as u64) as usize];
+                                std::fs::write(p, Content::Random { seed: r.next(), len: *sz as usize + 40 }.bytes())?;
+                                planted += 1;
+                            }
+                        }
+                        1 if !files.is_empty() => {
                             let (_, _, p) = &files[r.below(files.len() as u64) as usize];
                             let mut d = std::fs::read(p)?;
                             d.extend_from_slice(b"junk");
@@ -688,14 +698,14 @@ fn trace_inner(line: &str) -> anyhow::Result<String> {
         reset(&mut ops);
         names.push("prune".into());
     }
-    {
+    for combo in 0..4u64 {
         let repo = open()?;
         let _ = rec.take_log();
-        let ok = repo.check(CheckOptions::default().read_data(true))?.is_ok().is_ok();
+        let ok = repo.check(CheckOptions::default().read_data(combo & 1 == 1).trust_cache(combo & 2 == 2))?.is_ok().is_ok();
         anyhow::ensure!(ok, "check reports errors");
         flush(&mut ops, &mut ids, rec.take_log());
         reset(&mut ops);
-        names.push("check".into());
+        names.push(format!("check-rd{}-tc{}", combo & 1, (combo >> 1) & 1));
     }
     let latest = {
         let repo = open()?;
@@ -719,9 +729,155 @@ fn trace_inner(line: &str) -> anyhow::Result<String> {
     Ok(format!("ok {} ## {good} ## {bad}", names.join(",")))
 }
 
+// ------------------------------------------------------------------------------- checkopts
+// `check` with every CheckOptions combination that changes how the cache is used
+// (trust_cache x read_data), through the cached handle and through a handle without cache, over
+// each kind of planted cache file (stale / foreign / truncated / longer / misplaced; packs,
+// snapshots, index files).  The cache directory is restored before every run.
+// Line: `seed`.  Result: `ok runs=N` or `FAIL <kind> tc=.. rd=.. cached=.. uncached=.. bad=..;...`
+fn checkopts_case(line: &str) -> String {
+    match std::panic::catch_unwind(|| checkopts_inner(line)) {
+        Ok(Ok(s)) => s,
+        Ok(Err(e)) => format!("error {e:#}").replace('\n', " "),
+        Err(p) => {
+            let msg = p.downcast_ref::<String>().cloned().or_else(|| p.downcast_ref::<&str>().map(|s| s.to_string())).unwrap_or_default();
+            format!("panic {}", &msg.replace('\n', " ")[..msg.len().min(200)])
+        }
+    }
+}
+
+fn checkopts_inner(line: &str) -> anyhow::Result<String> {
+    use rustic_core::{CheckOptions, RepositoryOptions};
+    use verif_harness::e2e::*;
+    let mut t = Toks::new(line);
+    let mut r = SplitMix(t.u());
+    let store = mem();
+    let (repo, key) = init_repo(store.clone(), None, &small_pack_config(12_000, 1_500), &repo_opts())?;
+    drop(repo);
+    let cdir = tempfile::tempdir()?;
+    let mut copts = RepositoryOptions::default();
+    copts.no_cache = false;
+    copts.cache_dir = Some(cdir.path().to_path_buf());
+    let src = tempfile::tempdir()?;
+    let tp = TreeParams { max_entries: 14, max_depth: 3, max_file: 20_000, odd_names: false, symlinks: false, hardlinks: false };
+    materialize(src.path(), &gen_tree(&mut r, &tp))?;
+    std::fs::create_dir_all(src.path().join("d1/d2"))?;
+    std::fs::write(src.path().join("d1/d2/f"), b"nested")?;
+    for k in 0..2 {
+        std::fs::write(src.path().join("extra"), Content::Random { seed: r.next(), len: 3000 + k }.bytes())?;
+        let _ = backup_dir(open_repo(store.clone(), None, &key, &copts)?, src.path(), "src", None)?;
+    }
+    // another process forgets the older snapshot: its cache entry is stale
+    {
+        let rp = open_repo(store.clone(), None, &key, &repo_opts())?;
+        let mut sn = rp.get_all_snapshots()?;
+        sn.sort_by(|x, y| x.time.cmp(&y.time));
+        rp.delete_snapshots(&[sn[0].id])?;
+    }
+    let root = std::fs::read_dir(cdir.path())?.flatten().map(|e| e.path()).find(|p| p.is_dir()).ok_or_else(|| anyhow::anyhow!("no cache dir"))?;
+    // pristine copy of the cache directory
+    fn snapshot_dir(d: &Path, out: &mut Vec<(PathBuf, Vec<u8>)>) {
+        if let Ok(rd) = std::fs::read_dir(d) {
+            for e in rd.flatten() {
+                if e.path().is_dir() { snapshot_dir(&e.path(), out) } else { out.push((e.path(), std::fs::read(e.path()).unwrap())) }
+            }
+        }
+    }
+    let mut pristine = Vec::new();
+    snapshot_dir(&root, &mut pristine);
+    let restore = |root: &Path| -> anyhow::Result<()> {
+        std::fs::remove_dir_all(root)?;
+        for (p, d) in &pristine {
+            std::fs::create_dir_all(p.parent().unwrap())?;
+            std::fs::write(p, d)?;
+        }
+        Ok(())
+    };
+    let packs = canonical_files(&root, FileType::Pack);
+    anyhow::ensure!(!packs.is_empty(), "no tree pack was cached");
+    let kinds: [(&str, FileType, u8); 13] = [
+        ("none", FileType::Pack, 0),
+        ("pack-longer-foreign", FileType::Pack, 1),
+        ("pack-truncated", FileType::Pack, 2),
+        ("pack-foreign-id", FileType::Pack, 3),
+        ("pack-misplaced", FileType::Pack, 4),
+        ("pack-shorter-foreign", FileType::Pack, 5),
+        ("snapshot-longer", FileType::Snapshot, 1),
+        ("snapshot-truncated", FileType::Snapshot, 2),
+        ("snapshot-foreign-id", FileType::Snapshot, 3),
+        ("snapshot-misplaced", FileType::Snapshot, 4),
+        ("index-longer", FileType::Index, 1),
+        ("index-truncated", FileType::Index, 2),
+        ("index-foreign-id", FileType::Index, 3),
+    ];
+    let mut fails = Vec::new();
+    let mut runs = 0;
+    let mut cleaned = 0;
+    for (name, tpe, kind) in kinds {
+        for combo in 0..4u64 {
+            let (tc, rd) = (combo & 2 == 2, combo & 1 == 1);
+            restore(&root)?;
+            let files = canonical_files(&root, tpe);
+            if kind != 0 && kind != 3 && files.is_empty() {
+                continue;
+            }
+            match kind {
+                1 => {
+                    let (_, sz, p) = &files[0];
+                    std::fs::write(p, Content::Random { seed: 77 + combo, len: *sz as usize + 48 }.bytes())?;
+                }
+                2 => {
+                    let (_, sz, p) = &files[0];
+                    let d = std::fs::read(p)?;
+                    std::fs::write(p, &d[..*sz as usize / 2])?;
+                }
+                3 => {
+                    let hexs = id_from_u64(0xabcd_0000_0000_0001 + combo).to_hex();
+                    let d = root.join(tpe.dirname()).join(&hexs.as_str()[..2]);
+                    std::fs::create_dir_all(&d)?;
+                    std::fs::write(d.join(hexs.as_str()), Content::Random { seed: 5, len: 120 }.bytes())?;
+                }
+                4 => {
+                    let (id, _, _) = &files[0];
+                    std::fs::write(root.join(tpe.dirname()).join(id.to_hex().as_str()), b"misplaced")?;
+                }
+                5 => {
+                    let (_, sz, p) = &files[0];
+                    std::fs::write(p, Content::Random { seed: 78 + combo, len: (*sz as usize).saturating_sub(20).max(1) }.bytes())?;
+                }
+                _ => {}
+            }
+            let bad_before: usize = [FileType::Snapshot, FileType::Index, FileType::Pack].iter().map(|t| bad_entries(&root, *t, store.as_ref()).len()).sum();
+            let o = CheckOptions::default().read_data(rd).trust_cache(tc);
+            // an Err of the command itself is a verdict too (e.g. the index cannot be read)
+            let verdict = |ro: &RepositoryOptions| -> anyhow::Result<String> {
+                Ok(match open_repo(store.clone(), None, &key, ro)?.check(o) {
+                    Ok(res) => res.is_ok().is_ok().to_string(),
+                    Err(_) => "error".into(),
+                })
+            };
+            let a = verdict(&copts)?;
+            let b = verdict(&repo_opts())?;
+            let bad: Vec<String> = [FileType::Snapshot, FileType::Index, FileType::Pack].iter().flat_map(|t| bad_entries(&root, *t, store.as_ref())).collect();
+            runs += 1;
+            cleaned += bad_before;
+            if a != b || !bad.is_empty() {
+                fails.push(format!("{name} tc={} rd={} cached={a} uncached={b} bad={}", tc as u8, rd as u8, bad.join(",")));
+            }
+        }
+    }
+    if fails.is_empty() {
+        Ok(format!("ok runs={runs} bad_entries_before={cleaned}"))
+    } else {
+        Ok(format!("FAIL runs={runs} | {}", fails.join(" ;; ")))
+    }
+}
+
 fn main() {
     let args: Vec<String> = std::env::args().collect();
-    if args.len() > 2 && args[2] == "trace" {
+    if args.len() > 2 && args[2] == "checkopts" {
+        for_each_case(|l| checkopts_case(l));
+    } else if args.len() > 2 && args[2] == "trace" {
         for_each_case(|l| trace_case(l));
     } else if args.len() > 2 && args[2] == "readers" {
         for_each_case(|l| readers_case(l));
